@@ -264,6 +264,24 @@ pub enum Entry {
     Raw(String),
 }
 
+/// The `alias` sub-lines of a declaration; depending on the names a `note` line comes first or a
+/// comment line sits between them (other sub-directives do not affect the aliases around them).
+fn push_alias_lines(s: &mut String, name: &str, aliases: &[String]) {
+    if aliases.is_empty() {
+        return;
+    }
+    let style = (name.len() + aliases.iter().map(|a| a.len()).sum::<usize>()) % 3;
+    if style == 1 {
+        s.push_str("    note known under other names\n");
+    }
+    for (i, a) in aliases.iter().enumerate() {
+        if style == 2 && i == aliases.len() / 2 {
+            s.push_str("    ; also written as\n");
+        }
+        s.push_str(&format!("    alias {}\n", a));
+    }
+}
+
 #[derive(Clone, Debug, PartialEq, Default)]
 pub struct Ledger {
     pub entries: Vec<Entry>,
@@ -313,16 +331,12 @@ pub fn entry_text_named(e: &Entry, namer: &mut dyn Namer) -> (String, Vec<usize>
                     s.push_str(&format!("    format 1,000.{} {}\n", "0".repeat(*p as usize), name));
                 }
             }
-            for a in aliases {
-                s.push_str(&format!("    alias {}\n", a));
-            }
+            push_alias_lines(&mut s, name, aliases);
             (s, vec![])
         }
         Entry::Account { name, aliases } => {
             let mut s = format!("account {}\n", name);
-            for a in aliases {
-                s.push_str(&format!("    alias {}\n", a));
-            }
+            push_alias_lines(&mut s, name, aliases);
             (s, vec![])
         }
         Entry::Comment(c) => (format!("; {}\n", c), vec![]),
